@@ -330,7 +330,9 @@ class CoopCondition:
         s = _sched()
         me = s.current()
         if s.aborting:
-            return True
+            # the run was abandoned (deadlock / step limit): a caller that waits in a loop (queue.join, queue.get) would
+            # spin for ever on a wait that returns at once - unwind it instead
+            raise Abort()
         armed = self._armed(s, me)
         if not armed:
             self.lock.owner = None
@@ -342,7 +344,7 @@ class CoopCondition:
             if me in self.waiters:
                 self.waiters.remove(me)
             if s.aborting:
-                return True
+                raise Abort()
             # re-acquire
             while self.lock.owner is not None:
                 s.block(("lock", self.lock))
